@@ -69,11 +69,16 @@ impl Delegations {
             .context(error::JsonSerializationSnafu {
                 what: format!("{name} role"),
             })?;
+        let mut valid_keyids = HashSet::new();
+
         for signature in &role.signatures {
             if role_keys.keyids.contains(&signature.keyid) {
                 if let Some(key) = self.keys.get(&signature.keyid) {
                     if key.verify(&data, &signature.sig) {
-                        valid += 1;
+                        // Ignore duplicate keyids.
+                        if valid_keyids.insert(&signature.keyid) {
+                            valid += 1;
+                        }
                     }
                 }
             }
